@@ -43,10 +43,10 @@ def same_bytes(a, b):
 @kernel('C16', funcs=['ttLib/tables/_h_m_t_x.py:table__h_m_t_x.compile', 'ttLib/tables/_g_l_y_f.py:Glyph.compileCoordinates', 'ttLib/tables/_g_l_y_f.py:GlyphComponent.compile',
                       'ttLib/tables/_k_e_r_n.py:KernTable_format_0.compile', 'ttLib/tables/_l_o_c_a.py:table__l_o_c_a.compile', 'ttLib/tables/otBase.py:BaseTable.compile',
                       'ttLib/tables/otTables.py:Coverage.preWrite', 'ttLib/tables/otTables.py:ClassDef.preWrite', 'ttLib/tables/TupleVariation.py:compileTupleVariationStore'],
-        bounds='object kinds hmtx (3 glyphs), simple glyph (2 points), component, kern format 0 (2 pairs), loca (2 glyphs), GPOS PairPos format 1 and 2 '
+        bounds='object kinds hmtx (3 glyphs), simple glyph (2 integer points; 1 point with fractional quarter-unit coordinates), component, kern format 0 (2 pairs), loca (2 glyphs), GPOS PairPos format 1 and 2 '
                '(whole-table compile incl. Coverage/ClassDef preWrite), gvar tuple store; contents symbolic as in the C02/C06 kernels: compiling twice '
                'gives identical bytes and the object\'s content (a snapshot of its fields, symbolic terms compared by the solver) is what it was',
-        shims=['struct', 'array', 'bytes'], quick=[dict(kind=k) for k in ('hmtx', 'glyph', 'component', 'kern', 'loca', 'pairpos1', 'pairpos2', 'tuples')], collide=True, max_paths=100000)
+        shims=['struct', 'array', 'bytes'], quick=[dict(kind=k) for k in ('hmtx', 'glyph', 'glyph-frac', 'component', 'kern', 'loca', 'pairpos1', 'pairpos2', 'tuples')], collide=True, max_paths=100000)
 def compile_twice_identical(kind):
     if kind == 'hmtx':
         names = ['g0', 'g1', 'g2']
@@ -56,13 +56,19 @@ def compile_twice_identical(kind):
         snap = dict(t.metrics)
         c = lambda: t.compile(font)
         state = lambda: conj([conj([eq(t.metrics[n][0], snap[n][0]), eq(t.metrics[n][1], snap[n][1])]) for n in names])
-    elif kind == 'glyph':
-        pts = [(V.int('x%d' % i, -1200, 1200, bv=False), V.int('y%d' % i, -1200, 1200, bv=False)) for i in range(2)]
-        g = _mk_glyph(2)
+    elif kind in ('glyph', 'glyph-frac'):
+        if kind == 'glyph':
+            npts = 2
+            pts = [(V.int('x%d' % i, -1200, 1200, bv=False), V.int('y%d' % i, -1200, 1200, bv=False)) for i in range(npts)]
+        else:
+            npts = 1      # quarter units: fractional coordinates, as a font holds them after instancing or scaling
+            pts = [(V.int('x0', -4800, 4800, bv=False) / 4, V.int('y0', -4800, 4800, bv=False) / 4)]
+        g = _mk_glyph(npts)
         g.coordinates = GL.GlyphCoordinates(pts)
-        g.flags = GL.bytearray([1, 0]) if symbolic() else bytearray([1, 0])
+        fl = [1, 0][:npts]
+        g.flags = GL.bytearray(fl) if symbolic() else bytearray(fl)
         c = lambda: g.compileCoordinates()
-        state = lambda: conj([conj([eq(g.coordinates[i][0], pts[i][0]), eq(g.coordinates[i][1], pts[i][1])]) for i in range(2)] + [list(g.flags) == [1, 0], g.endPtsOfContours == [1]])
+        state = lambda: conj([conj([eq(g.coordinates[i][0], pts[i][0]), eq(g.coordinates[i][1], pts[i][1])]) for i in range(npts)] + [list(g.flags) == fl, g.endPtsOfContours == [npts - 1]])
     elif kind == 'component':
         comp = GL.GlyphComponent()
         comp.glyphName = 'a'
